@@ -14,6 +14,7 @@ const memfsPkg = "filesystem/filespace/memfs"
 func init() {
 	register(&PropDef{ID: "C09", Title: "In-memory filespace stays consistent under concurrent use", Rules: rulesC09,
 		Explanation: "Decided (structural necessary conditions, all paths of package memfs): L1 every access to Dir.nodes/Dir.index/File.data holds the owning mutex in the required mode (lockset analysis with computed wrapper summaries); L2 the stream handle is the only code that touches File.data outside a lock, it is constructed only by NewFileHandler which returns with the data lock held, and Close releases it; L3 every function that changes Dir.nodes also changes Dir.index under the same hold; L4 every insert into Dir.index is preceded, under one continuous hold of the W lock, by a miss of the same key, and WriteFile/Writer keep the directory's outer lock from the leaf lookup to the create/replace; L5 every lock acquired in the package is released on every path to every return; L6 the lock-class order graph is acyclic apart from the parent->child recursion of copyDir. " +
+			"Added in round 2: L1 extends to any further content-bearing field of Dir/File (slices, maps, atomic.Value, sync.Map: a cached listing or memo is only touched under the node's mutex); L4 also requires that Writer builds its stream handle (which takes the file's data lock) under the same hold of the directory's outer lock as the reset/create; L7 a buffer that receives a copy of File.data is sized from len(File.data) read under the same hold that copies (length before the lock + content under it = a value nobody wrote). " +
 			"NOT decided: linearizability, visibility and atomicity of overlapping operations (e.g. Remove(d) racing WriteFile(d/x)), liveness under real schedules; those need a dynamic or model-checking technique.",
 		Assumptions: []string{"two SSA values denote the same object when they are the same register or the same field path from the same parameter (fields holding sub-objects are not reassigned between lock and use)"}})
 }
@@ -304,6 +305,61 @@ func rulesC09(c *Ctx) {
 		return ""
 	})
 	c.Floor("L1", n, 20)
+	// secondary state: any further content-bearing field of a node (a cached listing,
+	// a memo, an atomic.Value, a sync.Map) follows the same discipline - it is only
+	// touched under the node's mutex.  A lock-free side copy needs an invalidation
+	// protocol the lockset analysis cannot vouch for.
+	for _, T := range []*types.Named{dir, file} {
+		st, ok := T.Underlying().(*types.Struct)
+		if !ok {
+			continue
+		}
+		for i := 0; i < st.NumFields(); i++ {
+			fld := st.Field(i)
+			if fld.Name() == "nodes" || fld.Name() == "index" || fld.Name() == "data" {
+				continue
+			}
+			ts := fld.Type().String()
+			switch fld.Type().Underlying().(type) {
+			case *types.Slice, *types.Map:
+				guardedAccessRule(c, le, "L1", fns, T, fld.Name(), "", nil)
+				continue
+			}
+			if !(strings.HasPrefix(ts, "sync/atomic.") || strings.HasPrefix(ts, "*sync/atomic.") || ts == "sync.Map" || ts == "*sync.Map") {
+				continue
+			}
+			qn := "memfs." + T.Obj().Name() + "." + fld.Name()
+			for _, f := range fns {
+				la := le.Analyze(f)
+				for _, ci := range Calls(f) {
+					r := ci.Recv()
+					if r == nil {
+						continue
+					}
+					fa, ok := r.(*ssa.FieldAddr)
+					if !ok {
+						if u, isU := r.(*ssa.UnOp); isU {
+							fa, ok = u.X.(*ssa.FieldAddr)
+						}
+					}
+					if !ok || fieldName(fa) != qn {
+						continue
+					}
+					if _, fresh := resolve(fa.X).(*ssa.Alloc); fresh {
+						continue
+					}
+					held := false
+					for k := range la.HeldBefore(ci.Instr) {
+						if strings.HasPrefix(k, keyP(fa.X)+".") {
+							held = true
+						}
+					}
+					c.Check(held, "L1", fmt.Sprintf("%s.%s %s in %s", T.Obj().Name(), fld.Name(), lastSeg(ci.Name()), fname(f)), ci.Pos(), "under the node's mutex",
+						"a second copy of the node's content ("+fld.Name()+") is read or published outside the node's mutex — a reader that computed its snapshot before a mutation can publish it after the mutator invalidated the copy, and the stale content is then served forever")
+				}
+			}
+		}
+	}
 
 	// ---- L3 list and index change together ----------------------------------
 	rulesListIndexInStep(c, le, "L3")
@@ -312,6 +368,66 @@ func rulesC09(c *Ctx) {
 	k := checkThenInsert(c, le, "L4", fns, dir, "index", "mu")
 	k += ruleOuterLockAroundLeaf(c, le, "L4")
 	c.Floor("L4", k, 3)
+
+	// ---- L7 a copy of guarded bytes is sized under the hold that copies them --------
+	// (length read before the lock + content read under it = a value nobody wrote:
+	// truncated or zero-padded when a stream write lands in between)
+	if _, di := fieldIndex(file, "data"); di >= 0 && dataMU >= 0 {
+		n7 := 0
+		for _, f := range fns {
+			la := le.Analyze(f)
+			for _, ci := range Calls(f) {
+				b, isB := ci.Common.Value.(*ssa.Builtin)
+				if !isB || b.Name() != "copy" || len(ci.Common.Args) != 2 {
+					continue
+				}
+				srcFromData := false
+				for _, o := range Origins(ci.Common.Args[1], FlowOpts{Alias: true}) {
+					if o.Kind == "field" && o.Name == "memfs.File.data" {
+						srcFromData = true
+					}
+				}
+				if !srcFromData {
+					continue
+				}
+				n7++
+				bad := ""
+				for _, o := range Origins(ci.Common.Args[0], FlowOpts{Alias: true}) {
+					ms, isMS := o.Val.(*ssa.MakeSlice)
+					if !isMS {
+						continue
+					}
+					ln := resolve(ms.Len)
+					if cv, ok := ln.(*ssa.Convert); ok {
+						ln = resolve(cv.X)
+					}
+					okLen := false
+					if lc, ok := ln.(*ssa.Call); ok {
+						if lb, ok := lc.Call.Value.(*ssa.Builtin); ok && lb.Name() == "len" {
+							if ld, ok := resolve(lc.Call.Args[0]).(*ssa.UnOp); ok {
+								if fa, ok := ld.X.(*ssa.FieldAddr); ok && fieldName(fa) == "memfs.File.data" {
+									for k := range la.HeldBefore(ld) {
+										if strings.HasSuffix(k, fmt.Sprintf(".&f%d", dataMU)) {
+											okLen = true
+										}
+									}
+									if !okLen {
+										bad = "the buffer is sized from len(File.data) read before the data lock is taken"
+									}
+								}
+							}
+						}
+					}
+					if !okLen && bad == "" {
+						bad = "the buffer is sized from " + vdesc(ln) + ", not from len(File.data) read under the lock that protects the copy"
+					}
+				}
+				c.Check(bad == "", "L7", "copy of File.data in "+fname(f)+" is sized under the same hold", ci.Pos(), "length and content are read under one hold of the data lock",
+					bad+" — a stream write between the two reads makes the copy a truncated or zero-padded value that was never written")
+			}
+		}
+		c.Floor("L7", n7, 1)
+	}
 
 	// ---- L5 no lock leak -------------------------------------------------------
 	acq := 0
@@ -532,8 +648,64 @@ func ruleOuterLockAroundLeaf(c *Ctx, le *LockEngine, rule string) int {
 		}
 		c.Check(ok, rule, con, f.Pos(), "lookup and create/replace under one continuous hold of the directory's outer lock",
 			why+" — two concurrent writers of the same new path can both miss and one write is lost or fails")
+		if m == "Writer" {
+			// the stream handle (which takes the file's data lock) is acquired under the same hold:
+			// otherwise a second Writer can reset the content in the gap and both streams append
+			isHandleCtor := func(ci *CallInfo) bool {
+				if ci.Static == nil || ci.Kind != "call" {
+					return false
+				}
+				res := ci.Static.Signature.Results()
+				for i := 0; i < res.Len(); i++ {
+					if pt, ok := res.At(i).Type().(*types.Pointer); ok {
+						if nt, ok := pt.Elem().(*types.Named); ok && nt.Obj().Name() == "FileHandler" && nt.Obj().Pkg() != nil && strings.HasSuffix(nt.Obj().Pkg().Path(), memfsPkg) {
+							return true
+						}
+					}
+				}
+				return false
+			}
+			var ctor *CallInfo
+			inSame := false
+			for _, ci := range Calls(f) {
+				if isHandleCtor(ci) {
+					ctor, inSame = ci, true
+				}
+			}
+			if ctor == nil {
+				for _, ci := range Calls(method) {
+					if isHandleCtor(ci) {
+						ctor = ci
+					}
+				}
+			}
+			okH, whyH := true, ""
+			switch {
+			case ctor == nil:
+				okH, whyH = false, "cannot find where Writer builds its stream handle; cannot certify"
+			case !inSame:
+				okH, whyH = false, "the stream handle is built in "+fname(method)+" after the helper "+fname(f)+" has released the directory lock"
+			default:
+				key := fmt.Sprintf("%s.&f%d", keyP(gets[0].Recv()), outer)
+				if mm, has := la.HeldBefore(ctor.Instr)[key]; !has || mm != 'W' {
+					okH, whyH = false, "the stream handle is built without the directory's outer write lock"
+				} else if la.releasedBetween(key, gets[0].Instr, ctor.Instr) {
+					okH, whyH = false, "the outer lock is released between the leaf lookup and the construction of the stream handle"
+				}
+			}
+			n++
+			c.Check(okH, rule, "stream handle acquired under the directory lock in memfs.(*Filespace).Writer", orPos(posOf(ctor), f.Pos()), "reset/create and handle construction under one hold",
+				whyH+" — a second Writer() on the same file can truncate in the gap; the two streams then append one after the other (the file holds a value nobody wrote)")
+		}
 	}
 	return n
+}
+
+func posOf(ci *CallInfo) token.Pos {
+	if ci == nil {
+		return token.NoPos
+	}
+	return ci.Pos()
 }
 
 // reachableSamePkg: f and the functions of its package reachable from it by
